@@ -17,8 +17,20 @@ HARNESSES = [
   'desc': 'classNameFromCppName (class, enum value and constant names) on every well-formed scoped C++ name',
   'domain': 'names of length 1..LMAX over [A-Za-z0-9_: ] that are well-formed (components [A-Za-z_][A-Za-z0-9_]* joined by ::, single inner blanks); mangle flag and -nomangle symbolic',
   'oracle': 'equals the reference (:: -> ., camelCase fold of _/blank separated words when mangling, else the C++ name; keyword -> _keyword); valid dotted Python identifier (when folding: if every component has a word starting with a letter); never a Python keyword',
-  'bounds': {'quick': {'defs': {'LMAX': 6}, 'unwind': 9, 'unwindset': _NAME_LOOPS, 'cap': 600},
+  'bounds': {'quick': {'defs': {'LMAX': 3}, 'unwind': 9, 'unwindset': _NAME_LOOPS, 'cap': 150},
              'thorough': {'defs': {'LMAX': 8}, 'unwind': 11, 'unwindset': _NAME_LOOPS, 'cap': 2400}}},
+ {'id': 'c02_remap_compare', 'property': 'C02', 'src': 'c02_remap.cxx', 'entry': 'harness_c02_remap_compare', 'tus': _IMN,
+  'cut': ['_Z13get_type_sortP7CPPType'], 'cbmc_flags': _FS,
+  'desc': 'RemapCompareLess (std::sort comparator of the overload sets) is a strict weak ordering',
+  'domain': '3 FunctionRemaps with symbolic const flag, every combination of 0..2 parameters each (27 concrete combinations inside the query); get_type_sort replaced by an uninterpreted table (one symbolic int per parameter slot)',
+  'oracle': 'irreflexive, asymmetric, transitive, incomparability transitive; non-const first, more parameters first, higher type sort first',
+  'bounds': {'quick': {'defs': {'NREMAP': 3, 'PMAX': 2}, 'unwind': 40, 'cap': 300}}},
+ {'id': 'c02_collapse_defaults', 'property': 'C02', 'src': 'c02_remap.cxx', 'entry': 'harness_c02_collapse_defaults', 'tus': _IMN,
+  'cut': ['_Z13get_type_sortP7CPPType'], 'cbmc_flags': _FS, 'nonterm_is_violation': True,
+  'desc': 'collapse_default_remaps on every overload table of 3 overloads with argument-count ranges within 0..AMAX',
+  'domain': 'every multiset of 3 overloads, each absent or accepting a contiguous range of argument counts in 0..AMAX (enumerated, map_sets built as write_function_for_name does)',
+  'oracle': 'at least one arity kept, largest arity kept, returned minimum within the arities; every argument count selects at most one overload set; an overload that accepted n arguments is in the set consulted for n; no overload invented',
+  'bounds': {'quick': {'defs': {'AMAX': 2, 'OPT_FROM': 0, 'OPT_TO': 1}, 'unwind': 40, 'cap': 300}}},
 ]
 
 PROPERTY_INFO = {'C02': {'level': 'model_checking',
